@@ -83,6 +83,29 @@ func genTqCase(r *Rng, c *Ctx, prop string) tqCase {
 		// the first object is added several times up front so that its deliveries fill the watcher channel
 		tc.Adds = append([]int{o, o}, tc.Adds...)
 	}
+	if r.Chance(10) {
+		// directed: a MIXED batch — one object that has used up its retry budget in the adapter shares
+		// a batch with fresh objects, and that batch's API call fails: the exhausted object is given
+		// up while its batch-mates are re-queued, and the failure must still be reported
+		fresh := 1 + r.Intn(2)
+		d := tqCase{N: 1 + fresh + 1, BatchSize: 2, MaxRetries: Pick(r, []int{1, 2}), MaxDelay: 0, Workers: 1 + r.Intn(2), Upload: r.Chance(30)}
+		for i := 0; i < d.N; i++ {
+			d.Adds = append(d.Adds, i)
+			d.Obj = append(d.Obj, []string{"action:ok"})
+		}
+		d.Obj[0] = nil
+		for k := 0; k < d.MaxRetries; k++ {
+			d.Obj[0] = append(d.Obj[0], "action:retriable")
+		}
+		d.Obj[0] = append(d.Obj[0], "action:ok")
+		for k := 0; k < 8; k++ {
+			d.Calls = append(d.Calls, "200")
+			d.Unknown = append(d.Unknown, false)
+		}
+		// the call that carries object 0 for the last time allowed fails
+		d.Calls[d.MaxRetries] = Pick(r, []string{"429", "500", "429"})
+		return d
+	}
 	nreq := 2 + r.Intn(6)
 	for k := 0; k < nreq; k++ {
 		call := "200"
@@ -444,6 +467,18 @@ func tqCampaign(c *Ctx, prop string) {
 		}
 		if o.WaitReturned && strings.SplitN(got, " term=", 2)[0] != want {
 			c.R.Add(Finding{Kind: "diff", What: "trace validation: the model's delivery counts differ from the watcher's", Case: tc.encode(), Impl: want, Model: clip(got, 400), Broken: "corr." + prop + ".trace"})
+		}
+		// error coverage: the model reports an error whenever an object ends as errored (theorem
+		// C06.errored_objects_are_reported); the queue's Errors() must not be empty then
+		c.R.Count("model.tail." + got[max(0, len(got)-14):])
+		if strings.HasSuffix(got, "reported=true") {
+			c.R.Count("model.reported")
+			if len(o.Errors) == 0 {
+				c.R.Count("model.reported+impl.no-errors")
+			}
+		}
+		if o.WaitReturned && strings.HasSuffix(got, "reported=true") && len(o.Errors) == 0 {
+			c.R.Add(Finding{Kind: "diff", What: "trace validation: the model reports an error for this run, the queue's Errors() is empty", Case: tc.encode(), Impl: "errors=[]", Model: clip(got, 400), Broken: "corr." + prop + ".errors"})
 		}
 	}
 	if prop == "C15" && c.Replay == "" {
